@@ -22,9 +22,11 @@ EXPLANATION = ("The real Rvectors / WignerSeitz code runs with concrete (rationa
                "Every entry of X(R) and of the back-transform is a linear form in the atoms; z3 decides (QF_LRA, |atoms|<=1) that the explicit sum over R at every mesh point "
                "and the code's own R_to_k return X_q to 1e-9, and that X(-R) = X(R)^dagger to 1e-12. Replica weights and R mod mesh are concrete integer facts per configuration.")
 ASSUMPTIONS = ["Gamma-centred complete mesh (documented precondition; the code raises otherwise)", "|X_q| components <= 1 (identities are homogeneous)", "Hermitian X_q in the band indices"]
-OUTSIDE = ["symbolic (continuous) variation of the Wannier centres / lattice: geometry is enumerated, not quantified (the Wigner-Seitz search over 343 candidates with symbolic norms did not "
-           "finish within the budget, see DESIGN)", "meshes with more than 12 points", "rounding inside the FFT libraries", "get_system_w90 (needs checkpoint files)"]
-STUBS = ["np.abs(X) > tol in exclude_zeros answered structurally for symbolic blocks (generic data assumed not accidentally below 1e-8)", "np.fft -> DFT by definition", "pyfftw -> DFT by definition (FakePyfftw of the C02 harness)"]
+OUTSIDE = ["continuous variation of the geometry beyond the symbolic-centre cases: there one centre moves along a line through windows of the displacement t (Wigner-Seitz face crossings and generic "
+           "stretches) with the replica selection explored symbolically; lattices, meshes, the other coordinates and the remaining centre sets are enumerated, not quantified", "meshes with more than 12 points", "rounding inside the FFT libraries", "get_system_w90 (needs checkpoint files)"]
+STUBS = ["symbolic-centre cases: np.linalg.norm -> distances kept as radicands (polynomials in t), compared through radicands; row minimum found among the candidates an interval "
+         "pre-filter over the t-window cannot exclude; |d_j - d_min| < tol decided by interval bounds where they suffice, otherwise exactly with one sqrt atom; np.round on the symbolic shift is the identity "
+         "(t stands for the rounded shift); np.unique on symbolic shifts sorts with forks", "np.abs(X) > tol in exclude_zeros answered structurally for symbolic blocks (generic data assumed not accidentally below 1e-8)", "np.fft -> DFT by definition", "pyfftw -> DFT by definition (FakePyfftw of the C02 harness)"]
 TOL = 1e-9
 
 LATTICES = dict(
@@ -229,6 +231,217 @@ def case_remap(rec, latt, mp, cen, nb, seed):
     rec.explore(body, [])
 
 
+# ---- symbolic Wannier-centre displacement --------------------------------------------------------------------------
+class Dist:
+    """a Euclidean distance sqrt(rad) with symbolic radicand (a polynomial in the displacement t): compared through radicands, never expanded into sqrt atoms
+    unless a tolerance window really needs it"""
+    __slots__ = ("rad",)
+
+    def __init__(s, rad):
+        s.rad = rad
+
+    def _cmp(s, o, op):
+        if isinstance(o, np.ndarray):
+            return NotImplemented
+        if not isinstance(o, Dist):
+            raise Inconclusive("distance compared with a non-distance")
+        return op(s.rad, o.rad)
+
+    def __lt__(s, o):
+        return s._cmp(o, lambda a, b: a < b)
+
+    def __le__(s, o):
+        return s._cmp(o, lambda a, b: a <= b)
+
+    def __gt__(s, o):
+        return s._cmp(o, lambda a, b: a > b)
+
+    def __ge__(s, o):
+        return s._cmp(o, lambda a, b: a >= b)
+
+    def __sub__(s, o):
+        if isinstance(o, np.ndarray):
+            return NotImplemented
+        return DistDiff(s, o)
+
+    def __rsub__(s, o):
+        return DistDiff(o, s)
+
+
+def _interval(x):
+    x = SymC.of(x)
+    if x.isconst():
+        v = x.fraction()[0]
+        return v, v
+    iv = x.interval()
+    if iv is None:
+        raise Inconclusive("no interval for a radicand (displacement atom without bounds)")
+    return iv
+
+
+class DistDiff:
+    def __init__(s, a, b):
+        s.a, s.b = a, b
+
+    def __abs__(s):
+        return AbsDistDiff(s.a, s.b)
+
+
+class AbsDistDiff:
+    """| sqrt(ra) - sqrt(rb) | compared with the Wigner-Seitz tolerance"""
+
+    def __init__(s, a, b):
+        s.a, s.b = a, b
+
+    def __lt__(s, tol):
+        from fractions import Fraction as Fr
+        tol = Fr(float(tol))
+        d = s.a.rad - s.b.rad
+        if SymC.of(d).iszero():
+            return True
+        big, small = (s.a, s.b) if bool(d >= 0) else (s.b, s.a)
+        diff = big.rad - small.rad                                   # >= 0 on this path
+        lo, hi = _interval(diff)
+        slo, shi = _interval(small.rad)
+        import math
+        ymax = Fr(math.sqrt(float(max(shi, 0))) * (1 + 1e-9) + 1e-12)
+        if lo >= 2 * tol * ymax + tol * tol:                         # certainly not within tolerance
+            return False
+        if hi < tol * tol:                                           # certainly within (2 tol sqrt(small) >= 0)
+            return True
+        y = SymC.of(small.rad).sqrt()                                # exact: diff < 2 tol y + tol^2 with y = sqrt(small.rad)
+        return (SymC.of(diff) - y * (2 * tol) - tol * tol) < 0
+
+
+class DistArray(SymArray):
+    def min(s, *a, **k):
+        el = [x for x in np.asarray(s, dtype=object).flat]
+        iv = [_interval(x.rad) for x in el]
+        U = builtins_min(h for l, h in iv)
+        keep = [i for i, (l, h) in enumerate(iv) if l <= U]
+        for n, i in enumerate(keep[:-1]):
+            cond = True
+            for j in keep:
+                if j != i:
+                    c = (el[i].rad < el[j].rad) if j < i else (el[i].rad <= el[j].rad)
+                    cond = c & cond if isinstance(c, SymB) else (cond if c else False)
+                    if cond is False:
+                        break
+            if cond is not False and bool(cond):
+                return el[i]
+        return el[keep[-1]]
+
+
+import builtins as _bi
+builtins_min = _bi.min
+
+
+class DistLinalg:
+    def __getattr__(s, k):
+        return getattr(np.linalg, k)
+
+    def norm(s, x, axis=None, **kw):
+        if not is_sym(x):
+            return np.linalg.norm(x, axis=axis, **kw)
+        x = np.asarray(x, dtype=object)
+        sq = (x * x).sum(axis=axis)
+        out = np.empty(sq.shape, dtype=object)
+        for i in np.ndindex(*sq.shape):
+            out[i] = Dist(SymC.of(sq[i]))
+        return out.view(DistArray)
+
+
+class RVnpSym(RVnp):
+    """np for rvectors.py when the Wannier centres are symbolic"""
+    linalg = DistLinalg()
+
+    def __init__(s):
+        RVnp.__init__(s)
+        s.linalg = DistLinalg()
+
+    def round(s, x, *a, **k):
+        # the symbolic coordinate stands for the rounded shift itself (rounding to num_digits_tol digits maps the window into itself)
+        return x if is_sym(x) else np.round(x, *a, **k)
+
+    def unique(s, x, axis=None, return_inverse=False, **k):
+        if not is_sym(x):
+            return np.unique(x, axis=axis, return_inverse=return_inverse, **k)
+        rows = [list(r) for r in np.asarray(x, dtype=object)]
+        uniq = []
+        inv = []
+        for r in rows:
+            for iu, u in enumerate(uniq):
+                if all(SymC.of(a - b).iszero() for a, b in zip(r, u)):
+                    inv.append(iu)
+                    break
+            else:
+                uniq.append(r)
+                inv.append(len(uniq) - 1)
+
+        def less(r1, r2):                                          # lexicographic, forks on symbolic coordinates
+            for a, b in zip(r1, r2):
+                d = SymC.of(a - b)
+                if d.iszero():
+                    continue
+                return bool(d < 0)
+            return False
+        order = list(range(len(uniq)))
+        for i in range(1, len(order)):                             # insertion sort
+            j = i
+            while j > 0 and less(uniq[order[j]], uniq[order[j - 1]]):
+                order[j], order[j - 1] = order[j - 1], order[j]
+                j -= 1
+        pos = {o: n for n, o in enumerate(order)}
+        U = sarr(np.array([uniq[o] for o in order], dtype=object))
+        return (U, np.array([pos[i] for i in inv])) if return_inverse else U
+
+    def array(s, x, dtype=None, **k):
+        if is_sym(x):
+            r = np.array(x, dtype=object)
+            return r.view(SymArray)
+        return np.array(x, dtype=dtype, **k)
+
+
+def case_symbolic_centre(rec, latt, mp, base, direction, window, tol, nb=2):
+    """one Wannier centre moves along a line c(t) = base + t*direction, t symbolic in the window: the Wigner-Seitz replica selection itself is explored symbolically"""
+    shadow([F, U])
+    shadow([RV], proxy=RVnpSym())
+    F.pyfftw = FakePyfftw
+    F.PYFFTW_IMPORTED = True
+    lattice = LATTICES[latt]
+    t = SymC.var("t", window[0], window[1])
+    cen = np.empty((2, 3), dtype=object)
+    for i in range(3):
+        cen[0, i] = SymC.of(0)
+        cen[1, i] = SymC.of(base[i]) + t * direction[i] if direction[i] else SymC.of(base[i])
+    cen = cen.view(SymArray)
+    kpt = mesh_points(mp, "natural", 0)
+    X = herm_q(len(kpt), nb, ())
+
+    def body(rec):
+        rec.witness = lambda env: dict(test="symcentre", latt=latt, mp=mp, base=base, direction=direction, t=env.val(t), tol=tol, X=env.arr(X))
+        with contextlib.redirect_stdout(io.StringIO()):
+            rv = RV.Rvectors(lattice=lattice, shifts_left_red=cen.copy())
+            rv.set_Rvec(np.array(mp), ws_tolerance=tol)
+            rv.set_fft_q_to_R(kpt_red=kpt, fftlib="numpy")
+            XR = rv.q_to_R(X.copy())
+        iR = rv.iRvec
+        mapx, mapy, mapz, weights = rv.get_remapper_XX_from_grid_to_list_R
+        rec.concrete("replica weights of every pair add up to the number of mesh points", bool(np.allclose(weights.sum(axis=0), np.prod(mp), atol=1e-9)), detail=str(weights.sum(axis=0).tolist()),
+                     key="replica weights do not add up to the number of mesh points")
+        ph = lift(np.exp(2j * np.pi * kpt.dot(iR.T)))
+        back = np.tensordot(ph, np.asarray(XR), axes=(1, 0)).view(SymArray)
+        rec.close("sum_R exp(2 pi i q.R) X(R) == X_q at every mesh point", back, X, TOL, bound=1.0, key="q->R->k round trip (explicit sum) does not return the input on the mesh")
+        import warnings
+        with warnings.catch_warnings():
+            warnings.simplefilter("ignore")
+            XRc = rv.conj_XX_R(np.asarray(XR).copy().view(SymArray))
+            lst_R, lst_mR = rv.reverseR
+        rec.concrete("every R has a -R partner", len(lst_R) == len(iR), detail=f"{len(lst_R)} of {len(iR)}", key="an R vector has no -R partner")
+        rec.close("conj_XX_R(X) == X, i.e. X(-R) == X(R)^dagger", XRc, XR, 1e-12, bound=1.0, key="real-space matrices are not Hermitian: X(-R) != X(R)^dagger")
+    rec.explore(body, [], maxpaths=4000)
+
+
 def case_ws_dist_two_matrices(rec, latt, mp, nb, short):
     """the do_ws_dist path with matrices of different range: remap_XX_R for each matrix, then exclude_zeros on the whole dictionary
     (what System_R.do_ws_dist does); the matrices at the mesh points must not change and no matrix may lose R-vectors it needs"""
@@ -267,6 +480,17 @@ def case_ws_dist_two_matrices(rec, latt, mp, nb, short):
 def cases(tier, seed):
     q = tier == "quick"
     out = []
+    # a Wannier centre moving along a line: windows around the Wigner-Seitz face crossings and generic stretches in between
+    sym_windows = [(-0.05, 0.05), (0.2, 0.4), (0.95, 1.05), (-1.05, -0.95)] + ([] if q else [(0.45, 0.55), (1.2, 1.4), (-0.6, -0.4), (1.95, 2.05)])
+    for win in sym_windows:
+        out.append(Case(f"symbolic centre cubic mp=(2, 1, 1) c=(t,0.1,0.2) t in {win} tol=1e-05", case_symbolic_centre,
+                        dict(latt="cubic", mp=(2, 1, 1), base=[0, 0.1, 0.2], direction=[1, 0, 0], window=win, tol=1e-5), timeout=900 if q else 2400))
+    if not q:
+        for win in [(-0.05, 0.05), (0.45, 0.55), (0.95, 1.05)]:
+            out.append(Case(f"symbolic centre tetragonal mp=(2, 2, 1) c=(t,t,0.3) t in {win} tol=0.001", case_symbolic_centre,
+                            dict(latt="tetragonal", mp=(2, 2, 1), base=[0, 0, 0.3], direction=[1, 1, 0], window=win, tol=1e-3), timeout=2400))
+            out.append(Case(f"symbolic centre hexagonal mp=(3, 1, 1) c=(t,0.2,0.1) t in {win} tol=1e-05", case_symbolic_centre,
+                            dict(latt="hexagonal", mp=(3, 1, 1), base=[0, 0.2, 0.1], direction=[1, 0, 0], window=win, tol=1e-5), timeout=2400))
     for latt, mp in (("cubic", (2, 2, 1)), ("hexagonal", (3, 1, 1)), ("fcc", (2, 2, 2))):
         for short in ("onsite", "two"):
             out.append(Case(f"ws_dist two matrices {latt} mp={mp} short-ranged SS={short}", case_ws_dist_two_matrices, dict(latt=latt, mp=mp, nb=2, short=short), timeout=600))
@@ -325,6 +549,27 @@ def replay(rec):
         X = unarr(w["X"]).astype(complex)
         if np.abs(X).max() == 0:
             X = rng.uniform(-1, 1, X.shape) + 1j * rng.uniform(-1, 1, X.shape)
+    if w.get("test") == "symcentre":
+        centres = np.array([[0, 0, 0], [w["base"][i] + w["t"] * w["direction"][i] for i in range(3)]], dtype=float)
+        kpt = mesh_points(mp, "natural", 0)
+        Xh = 0.5 * (X + np.conjugate(np.swapaxes(X, 1, 2)))
+        import warnings
+        try:
+            with contextlib.redirect_stdout(io.StringIO()), warnings.catch_warnings():
+                warnings.simplefilter("ignore")
+                rv = RV.Rvectors(lattice=lattice, shifts_left_red=centres)
+                rv.set_Rvec(np.array(mp), ws_tolerance=w["tol"])
+                rv.set_fft_q_to_R(kpt_red=kpt, fftlib="numpy")
+                XR = rv.q_to_R(Xh.copy())
+                XRc = rv.conj_XX_R(XR.copy())
+                lst_R, lst_mR = rv.reverseR
+        except Exception as e:
+            return True, f"t={w['t']}: raises {type(e).__name__}: {str(e)[:200]}"
+        back = np.tensordot(np.exp(2j * np.pi * kpt.dot(rv.iRvec.T)), XR, axes=(1, 0))
+        e1 = np.abs(back - Xh).max()
+        e3 = np.abs(rv.get_remapper_XX_from_grid_to_list_R[3].sum(axis=0) - np.prod(mp)).max()
+        e4 = np.inf if len(lst_R) != len(rv.iRvec) else np.abs(XRc - XR).max()
+        return bool(max(e1, e3, e4) > 1e-8), f"t={w['t']}: round trip err {e1:.2e}; weight sum err {e3:.2e}; hermiticity err {e4:.2e}"
     if w.get("test") == "wsdist2":
         centres = np.array(CENTRES["generic2"], dtype=float)[:nb]
         iR_old = np.array([(i, j, k) for i in range(mp[0]) for j in range(mp[1]) for k in range(mp[2])])
